@@ -180,11 +180,14 @@ func RunProgram(db *boltz.DbImpl, ctx boltz.MutateContext, ops []Op, program []i
 	return opErr, obsErr
 }
 
-func (e *Explorer) violation(kind string, s *State, program []int, msg string) {
+func (e *Explorer) violation(kind string, s *State, program []int, msg string, detail ...string) {
 	hist := e.history(s, program)
 	// the signature names the failing program, not the history that led to the state, so one
 	// defect reached from many states is one finding; the (shortest, BFS) history is in the replay
 	sig := fmt.Sprintf("%s|%s|%s", e.Sc.Name(), kind, e.progName(program))
+	if len(detail) > 0 {
+		sig += "|" + strings.Join(detail, "|")
+	}
 	e.Rep.Violation(sig, msg, map[string]interface{}{
 		"scenario": e.Sc.Name(),
 		"kind":     kind,
@@ -403,7 +406,7 @@ func (e *Explorer) expand(s *State) []succ {
 			}
 		}
 		if modelOk != (opErr == nil) || (opErr != nil && !contains(classes, implClass)) {
-			e.violation("outcome-mismatch", s, program, fmt.Sprintf("implementation outcome %q (err=%v), reference model allows %v", implClass, opErr, classes))
+			e.violation("outcome-mismatch", s, program, fmt.Sprintf("implementation outcome %q (err=%v), reference model allows %v", implClass, opErr, classes), "impl="+implClass, fmt.Sprintf("model=%v", classes))
 			continue
 		}
 		if opErr != nil {
